@@ -58,12 +58,11 @@ RowAcc(a, b, i, prev2, prev, acc, swap, sid) ==
 
 Row0(b) == [j \in 1..Len(b) + 1 |-> j - 1]
 
-RECURSIVE Rows(_, _, _, _, _, _, _)
-Rows(a, b, i, prev2, prev, swap, sid) ==
-    IF i > Len(a) THEN prev
-    ELSE Rows(a, b, i + 1, prev, RowAcc(a, b, i, prev2, prev, <<i>>, swap, sid), swap, sid)
-
-LastRow(a, b, swap, sid) == Rows(a, b, 1, <<>>, Row0(b), swap, sid)
+\* the rows are folded over a with FoldLeft (evaluated iteratively by TLC, so a text of tens of thousands of characters does
+\* not nest the evaluation that deep); acc = <<row i-2, row i-1, i>>
+LastRow(a, b, swap, sid) ==
+    FoldLeft(LAMBDA acc, ch : <<acc[2], RowAcc(a, b, acc[3], acc[1], acc[2], <<acc[3]>>, swap, sid), acc[3] + 1>>,
+             <<<<>>, Row0(b), 1>>, a)[2]
 Dist(a, b, swap, sid) == LastRow(a, b, swap, sid)[Len(b) + 1]
 PrefixDist(a, b, swap, sid) == SeqMin(LastRow(a, b, swap, sid))
 
